@@ -1149,6 +1149,28 @@ pub fn generate(name: &str, rng: &mut Rng, n: usize, tier: &str) -> Vec<String> 
             }
         }
     }
+    // 0b. hash-to-curve: message x DST classes (absent, explicitly empty, one byte, the default literal,
+    // around the 255/256 boundary where the expander hashes an over-long DST first), both cost models
+    {
+        let mut i = 0;
+        for op in ["g1_map", "g2_map"] {
+            let default_dst = (if op == "g1_map" { DST_G1 } else { DST_G2 }).to_vec();
+            for flags in [0u32, 0x2000] {
+                for msg in [vec![], b"abc".to_vec(), rng.bytes(100)] {
+                    let dsts: Vec<Option<Vec<u8>>> = vec![None, Some(vec![]), Some(vec![0]), Some(b"x".to_vec()), Some(default_dst.clone()),
+                                                          Some(default_dst[..42].to_vec()), Some(rng.bytes(255)), Some(rng.bytes(256)), Some(rng.bytes(257))];
+                    for dst in dsts {
+                        let mut items = vec![T::A(msg.clone())];
+                        if let Some(d) = dst {
+                            items.push(T::A(d));
+                        }
+                        out.push(line(&format!("m{}", i), op, flags, u64::MAX, &T::list(items), "f"));
+                        i += 1;
+                    }
+                }
+            }
+        }
+    }
     // 1. the repository's vectors (sampled in the quick tier; all of them in the thorough tier)
     let vectors = load_vectors();
     let keep = if tier == "thorough" { vectors.len() } else { (n / 2).min(vectors.len()) };
